@@ -1,6 +1,7 @@
 """Implementation side + serialisation for the protocol plugins: dispatcher (C15), mission
 mobility (C16), random mobility (C17).  The plugins are driven through their public API with a
 recording provider; telemetry is delivered by calling the protocol's (wrapped) method."""
+import os
 import random
 
 from common import fhex
@@ -85,7 +86,18 @@ def run_mission_impl(case):
         proto.provider.cmds = []
         res = "ok"
         try:
-            if op[0] == "start":
+            if op[0] == "start" and case.get("via_file"):
+                # the same mission handed over as a waypoint file (one "x,y,z" line per waypoint)
+                import tempfile
+                fd, path = tempfile.mkstemp(suffix=".txt")
+                try:
+                    with os.fdopen(fd, "w") as f:
+                        for q in op[1]:
+                            f.write("%r,%r,%r\n" % (float(q[0]), float(q[1]), float(q[2])))
+                    plugin.start_mission_with_waypoint_file(path)
+                finally:
+                    os.unlink(path)
+            elif op[0] == "start":
                 plugin.start_mission([tuple(p) for p in op[1]])
             elif op[0] == "stop":
                 plugin.stop_mission()
